@@ -228,6 +228,15 @@ func NewWorld(s *Scenario, opts lab.NodeOpts, props ...string) (*World, error) {
 		Addr{Bytes: lab.ModuleAddr("stream"), Name: "stream-escrow"},
 		Addr{Bytes: lab.ModuleAddr("fee_collector"), Name: "fee-collector"},
 	)
+	// registrations already present in the genesis document
+	for i := 0; i < s.Gen.Wrk.PrepopN(); i++ {
+		o := w.Book[i%w.NAcc]
+		w.Wrk.Regs = append(w.Wrk.Regs, &Registration{ID: uint64(i + 1), Owner: o.Key(), OwnerStr: o.Bytes.String(), Fields: []string{fmt.Sprintf("pre-w%d", i), "pre", "", "geth"}, RegTime: uint64(lab.Epoch.Unix()), Limit: new(big.Int).SetUint64(s.Gen.Wrk.DefLimit)})
+	}
+	for i := 0; i < s.Gen.Bcn.PrepopN(); i++ {
+		o := w.Book[i%w.NAcc]
+		w.Bcn.Regs = append(w.Bcn.Regs, &Registration{ID: uint64(i + 1), Owner: o.Key(), OwnerStr: o.Bytes.String(), Fields: []string{fmt.Sprintf("pre-b%d", i), ""}, RegTime: uint64(lab.Epoch.Unix()), Limit: new(big.Int).SetUint64(s.Gen.Bcn.DefLimit)})
+	}
 	for _, i := range s.Gen.Ent.Whitelist {
 		w.Ent.Whitelist[w.Book[i%w.NAcc].Key()] = true
 	}
